@@ -1,0 +1,5 @@
+pub use crate::ingress::{IngressId, IngressInfo, Register};
+
+pub fn new_register() -> Register {
+    Register::verif_with_serial(1)
+}
